@@ -46,7 +46,7 @@ def err_class(exc, expect_name=None) -> str:
 class NoiseSession:
     """One client helper + one device, frames materialised on demand."""
 
-    def __init__(self, rng: random.Random, dev_name, exp_name, loop=None):
+    def __init__(self, rng: random.Random, dev_name, exp_name, loop=None, hp: int = 0):
         from aioesphomeapi._frame_helper.noise import APINoiseFrameHelper
 
         self.rng = rng
@@ -68,7 +68,8 @@ class NoiseSession:
         self.hello_write = b"".join(self.tr.writes)
         bodies = self.device.feed_client_bytes(self.hello_write)
         self.client_bodies = bodies
-        self.hs_good = self.device.handshake_reply(bodies[1]) if len(bodies) == 2 else None
+        self.hp = hp
+        self.hs_good = self.device.handshake_reply(bodies[1], rng.randbytes(hp)) if len(bodies) == 2 else None
         self.other_key = rng.randbytes(32)
         self.msgs: dict[int, tuple[int, bytes]] = {}
 
@@ -95,7 +96,7 @@ class NoiseSession:
         res.set_prologue(devices.PROLOGUE)
         res.start_handshake()
         res.read_message(m1)
-        return res.write_message()
+        return res.write_message(self.rng.randbytes(self.hp))
 
     def frame_bytes(self, f: dict, devk: str) -> bytes:
         """Bytes of one symbolic frame (see NoiseHelper.tla)."""
@@ -192,7 +193,7 @@ def replay_behaviour(rng, nm, dev, frames, hist):
     """Execute one TLC behaviour of NoiseHelper on the real helper -> mismatch or None."""
     loop = simloop.new_loop()
     try:
-        s = NoiseSession(rng, nm["dev"], nm["exp"], loop)
+        s = NoiseSession(rng, nm["dev"], nm["exp"], loop, hp=int(nm.get("hp", 0)))
         stream = s.stream(frames, dev["k"])
         pos = 0
         for i, h in enumerate(hist):
